@@ -38,8 +38,8 @@ func (o *Obligation) query(withModel bool) string {
 	if n > len(c.assumes) {
 		n = len(c.assumes)
 	}
-	for _, a := range c.assumes[:n] {
-		b.WriteString("(assert " + a + ")\n")
+	for _, i := range o.relevantAssumes(n) {
+		b.WriteString("(assert " + c.assumes[i] + ")\n")
 	}
 	for _, x := range o.Extra {
 		b.WriteString("(assert " + x + ")\n")
@@ -78,9 +78,104 @@ func (o *Obligation) query(withModel bool) string {
 	return strings.ReplaceAll(strings.ReplaceAll(b.String(), "Float64", "FP64s"), "Float32", "FP32s")
 }
 
-// The preamble's Float sorts must be defined before datatypes use them; fix ordering by
-// emitting define-sort first.
-func init() {}
+// symbolTokens returns the declared symbols (constants and functions introduced by the engine)
+// occurring in an SMT text.
+func symbolTokens(s string, declared map[string]bool, out map[string]bool) {
+	i := 0
+	for i < len(s) {
+		c := s[i]
+		if c == '(' || c == ')' || c == ' ' || c == '\n' || c == '\t' {
+			i++
+			continue
+		}
+		j := i
+		for j < len(s) && s[j] != '(' && s[j] != ')' && s[j] != ' ' && s[j] != '\n' && s[j] != '\t' {
+			j++
+		}
+		tok := s[i:j]
+		if declared[tok] {
+			out[tok] = true
+		}
+		i = j
+	}
+}
+
+// relevantAssumes is the cone of influence of the goal inside the assumption prefix: an assumption is
+// kept iff it shares a declared symbol, transitively, with the goal. Dropping the rest weakens the
+// hypotheses only with facts that cannot interact with the goal (sound for `unsat`), and keeps unrelated
+// quantified facts out of the query so that refutable goals come back `sat` with a model.
+func (o *Obligation) relevantAssumes(n int) []int {
+	c := o.ctx
+	c.mu.Lock()
+	defer c.mu.Unlock()
+	if os.Getenv("GOVC_NOSLICE") != "" {
+		all := make([]int, n)
+		for i := range all {
+			all[i] = i
+		}
+		return all
+	}
+	if c.declaredSyms == nil {
+		c.declaredSyms = map[string]bool{}
+		for _, d := range c.decls {
+			for _, kw := range []string{"(declare-const ", "(declare-fun "} {
+				if strings.HasPrefix(d, kw) {
+					rest := d[len(kw):]
+					if k := strings.IndexAny(rest, " )"); k > 0 {
+						c.declaredSyms[rest[:k]] = true
+					}
+				}
+			}
+		}
+	}
+	if len(c.assumeSyms) < len(c.assumes) {
+		for i := len(c.assumeSyms); i < len(c.assumes); i++ {
+			m := map[string]bool{}
+			symbolTokens(c.assumes[i], c.declaredSyms, m)
+			c.assumeSyms = append(c.assumeSyms, m)
+		}
+	}
+	need := map[string]bool{}
+	symbolTokens(o.Reach, c.declaredSyms, need)
+	symbolTokens(o.Cond, c.declaredSyms, need)
+	for _, x := range o.Extra {
+		symbolTokens(x, c.declaredSyms, need)
+	}
+	bySym := map[string][]int{}
+	for i := 0; i < n; i++ {
+		for s := range c.assumeSyms[i] {
+			bySym[s] = append(bySym[s], i)
+		}
+	}
+	included := make([]bool, n)
+	var work []string
+	for s := range need {
+		work = append(work, s)
+	}
+	for len(work) > 0 {
+		s := work[len(work)-1]
+		work = work[:len(work)-1]
+		for _, i := range bySym[s] {
+			if included[i] {
+				continue
+			}
+			included[i] = true
+			for t := range c.assumeSyms[i] {
+				if !need[t] {
+					need[t] = true
+					work = append(work, t)
+				}
+			}
+		}
+	}
+	var out []int
+	for i := 0; i < n; i++ {
+		if included[i] || len(c.assumeSyms[i]) == 0 {
+			out = append(out, i)
+		}
+	}
+	return out
+}
 
 type solverSpec struct {
 	name string
